@@ -611,26 +611,31 @@ def set_tenalg(name):
 
 
 # ----------------------------------------------------------------------------- definitional dense reconstructions (C04 measurements)
+def _num(a):
+    a = np.asarray(a)
+    return a if np.iscomplexobj(a) else a.astype(float)
+
+
 def ref_dense(op, ft):
     """numpy reconstruction of a (possibly floating point) factorised tensor; used to measure outputs."""
     L = "abcdefgh"
     if op == "cp":
         w, fs = ft
-        fs = [np.asarray(f, dtype=float) for f in fs]
+        fs = [_num(f) for f in fs]
         fs = [f.reshape(-1, 1) if f.ndim == 1 else f for f in fs]
         R = fs[0].shape[1]
-        w = np.ones(R) if w is None else np.asarray(w, dtype=float)
+        w = np.ones(R) if w is None else _num(w)
         eq = ",".join(L[k] + "z" for k in range(len(fs))) + ",z->" + L[:len(fs)]
         return np.einsum(eq, *fs, w)
     if op == "tucker":
         core, fs = ft
-        core = np.asarray(core, dtype=float)
+        core = _num(core)
         n = len(fs)
         U = "ijklmnop"
         eq = U[:core.ndim] + "," + ",".join(L[k] + U[k] for k in range(n)) + "->" + L[:n]
-        return np.einsum(eq, core, *[np.asarray(f, dtype=float) for f in fs])
+        return np.einsum(eq, core, *[_num(f) for f in fs])
     if op in ("tt", "tr"):
-        fs = [np.asarray(f, dtype=float) for f in ft]
+        fs = [_num(f) for f in ft]
         n = len(fs)
         U = "ijklmnop"
         eq = ",".join(U[k] + L[k] + U[(k + 1) % n if op == "tr" else k + 1] for k in range(n)) + "->" + L[:n]
@@ -639,13 +644,13 @@ def ref_dense(op, ft):
         return np.einsum(eq, *fs)
     if op == "p2":
         w, (A, B, C), ps = ft
-        A, B, C = (np.asarray(x, dtype=float) for x in (A, B, C))
+        A, B, C = (_num(x) for x in (A, B, C))
         R = A.shape[1]
-        w = np.ones(R) if w is None else np.asarray(w, dtype=float)
+        w = np.ones(R) if w is None else _num(w)
         J = max(p.shape[0] for p in ps)
         out = np.zeros((A.shape[0], J, C.shape[0]))
         for i, P in enumerate(ps):
-            Bi = np.asarray(P, dtype=float) @ B
+            Bi = _num(P) @ B
             out[i, :P.shape[0]] = (Bi * (w * A[i])) @ C.T
         return out
     raise ValueError(op)
